@@ -158,13 +158,63 @@ Proof.
     + apply IH; auto. simpl. apply Rnot_le_lt in Hq1. lra.
 Qed.
 
+(* ---- numpy.interp's segment selection gives the same real number as searchsorted-left ---- *)
+Lemma seg_np_R x0 x1 y0 y1 q : seg_np NumR x0 x1 y0 y1 q = seg NumR x0 x1 y0 y1 q.
+Proof.
+  unfold seg_np, isnan. simpl neqb. unfold Reqb.
+  destruct (Req_EM_T _ _) as [_|H]; [reflexivity|exfalso; apply H; reflexivity].
+Qed.
+
+Lemma interp_np_cons x0 x1 x2 xt y0 y1 yt q :
+  interp_np NumR (x0 :: x1 :: x2 :: xt) (y0 :: y1 :: yt) q
+  = if Rlt_dec q x1 then (if Req_EM_T q x0 then y0 else seg NumR x0 x1 y0 y1 q)
+    else interp_np NumR (x1 :: x2 :: xt) (y1 :: yt) q.
+Proof.
+  cbn [interp_np]. simpl nltb; simpl neqb. unfold Rltb, Reqb. rewrite seg_np_R.
+  destruct (Rlt_dec q x1); destruct (Req_EM_T q x0); reflexivity.
+Qed.
+Lemma interp_np_two x0 x1 y0 y1 yt q :
+  interp_np NumR [x0; x1] (y0 :: y1 :: yt) q
+  = if Rlt_dec q x1 then (if Req_EM_T q x0 then y0 else seg NumR x0 x1 y0 y1 q) else y1.
+Proof.
+  cbn [interp_np]. simpl nltb; simpl neqb. unfold Rltb, Reqb. rewrite seg_np_R.
+  destruct (Rlt_dec q x1); destruct (Req_EM_T q x0); reflexivity.
+Qed.
+
+Theorem interp_np_is_interp_lin : forall xs ys q,
+  incr xs -> length ys = length xs -> (2 <= length xs)%nat -> hd 0 xs <= q <= last xs 0 ->
+  interp_np NumR xs ys q = interp_lin NumR xs ys q.
+Proof.
+  induction xs as [|x0 xt IH]; intros ys q Hinc Hlen Hn Hq; [simpl in Hn; lia|].
+  destruct xt as [|x1 xt']; [simpl in Hn; lia|].
+  destruct ys as [|y0 [|y1 yt]]; try (simpl in Hlen; lia).
+  pose proof Hinc as [H01 Hinc'].
+  destruct xt' as [|x2 xt''].
+  - rewrite interp_np_two, interp_lin_two'. simpl in Hq.
+    destruct (Rlt_dec q x1).
+    + destruct (Req_EM_T q x0) as [->|]; [now rewrite seg_at_left|reflexivity].
+    + assert (q = x1) by lra. subst q. now rewrite seg_at_right.
+  - rewrite interp_np_cons, interp_lin_cons.
+    change (last (x0 :: x1 :: x2 :: xt'') 0) with (last (x1 :: x2 :: xt'') 0) in Hq. simpl hd in Hq.
+    destruct (Rlt_dec q x1) as [Hlt|Hge].
+    + destruct (Rle_dec q x1); [|lra].
+      destruct (Req_EM_T q x0) as [->|]; [now rewrite seg_at_left|reflexivity].
+    + destruct (Rle_dec q x1) as [Hle|Hgt].
+      * assert (q = x1) by lra. subst q. rewrite seg_at_right by exact H01.
+        rewrite IH; [| exact Hinc' | simpl in *; lia | simpl; lia | simpl hd; lra].
+        apply (interp_lin_at_node (x1 :: x2 :: xt'') (y1 :: yt) 0); auto; simpl in *; lia.
+      * apply IH; [exact Hinc' | simpl in *; lia | simpl; lia | simpl hd; lra].
+Qed.
+
 (* ---- the clamped lookup (interp1d with fill_value=(lo, hi), bounds_error=False) ---- *)
 Lemma interp_fill_R lo hi xs ys q :
+  incr xs -> length ys = length xs -> (2 <= length xs)%nat ->
   interp_fill NumR lo hi xs ys q =
   if Rlt_dec q (hd 0 xs) then lo else if Rlt_dec (last xs 0) q then hi else interp_lin NumR xs ys q.
 Proof.
-  unfold interp_fill. simpl nltb. unfold Rltb. simpl n0.
-  destruct (Rlt_dec q (hd 0 xs)); [reflexivity|]. destruct (Rlt_dec (last xs 0) q); reflexivity.
+  intros Hinc Hl Hn. unfold interp_fill. simpl nltb. unfold Rltb. simpl n0.
+  destruct (Rlt_dec q (hd 0 xs)); [reflexivity|]. destruct (Rlt_dec (last xs 0) q); [reflexivity|].
+  apply interp_np_is_interp_lin; auto. lra.
 Qed.
 
 (* every real query returns a value within [lo, hi] when the ordinates and both fill values are *)
@@ -173,7 +223,7 @@ Theorem interp_fill_range lo hi flo fhi xs ys q :
   lo <= flo <= hi -> lo <= fhi <= hi ->
   lo <= interp_fill NumR flo fhi xs ys q <= hi.
 Proof.
-  intros Hinc Hlen Hn Hys Hflo Hfhi. rewrite interp_fill_R.
+  intros Hinc Hlen Hn Hys Hflo Hfhi. rewrite interp_fill_R by assumption.
   destruct (Rlt_dec q (hd 0 xs)); [exact Hflo|].
   destruct (Rlt_dec (last xs 0) q); [exact Hfhi|].
   apply interp_lin_range; auto. lra.
@@ -183,7 +233,7 @@ Theorem interp_fill_at_node flo fhi xs ys j :
   incr xs -> length ys = length xs -> (2 <= length xs)%nat -> (j < length xs)%nat ->
   interp_fill NumR flo fhi xs ys (nth j xs 0) = nth j ys 0.
 Proof.
-  intros Hinc Hlen Hn Hj. rewrite interp_fill_R.
+  intros Hinc Hlen Hn Hj. rewrite interp_fill_R by assumption.
   assert (Hge : hd 0 xs <= nth j xs 0).
   { destruct xs as [|a l]; [simpl in Hn; lia|]. destruct j; [simpl; lra|].
     simpl. left. apply incr_hd_lt_nth; [exact Hinc|]. simpl in Hj. lia. }
@@ -203,7 +253,117 @@ Theorem interp_fill_outside flo fhi xs ys q :
   (q < hd 0 xs -> interp_fill NumR flo fhi xs ys q = flo) /\
   (hd 0 xs <= last xs 0 -> last xs 0 < q -> interp_fill NumR flo fhi xs ys q = fhi).
 Proof.
-  rewrite interp_fill_R. split.
+  unfold interp_fill. simpl nltb. unfold Rltb. simpl n0. split.
   - intros H. destruct (Rlt_dec q (hd 0 xs)); [reflexivity|lra].
   - intros H0 H. destruct (Rlt_dec q (hd 0 xs)); [lra|]. destruct (Rlt_dec (last xs 0) q); [reflexivity|lra].
+Qed.
+
+(* ---- the interpolant is affine-equivariant in the ordinates ---- *)
+Lemma seg_affine k c x0 x1 y0 y1 q :
+  seg NumR x0 x1 (k * y0 + c) (k * y1 + c) q = k * seg NumR x0 x1 y0 y1 q + c.
+Proof. rewrite !seg_R. unfold Rdiv. ring. Qed.
+
+Theorem interp_lin_affine k c : forall xs ys q, length ys = length xs ->
+  (2 <= length xs)%nat ->
+  interp_lin NumR xs (map (fun y => k * y + c) ys) q = k * interp_lin NumR xs ys q + c.
+Proof.
+  induction xs as [|x0 xt IH]; intros ys q Hlen Hn; [simpl in Hn; lia|].
+  destruct xt as [|x1 xt']; [simpl in Hn; lia|].
+  destruct ys as [|y0 [|y1 yt]]; try (simpl in Hlen; lia).
+  destruct xt' as [|x2 xt''].
+  - destruct yt; [|simpl in Hlen; lia]. cbn [map]. rewrite !interp_lin_two. apply seg_affine.
+  - cbn [map]. rewrite !interp_lin_cons. destruct (Rle_dec q x1); [apply seg_affine|].
+    change (k * y1 + c :: map (fun y => k * y + c) yt) with (map (fun y => k * y + c) (y1 :: yt)).
+    apply IH; simpl in *; lia.
+Qed.
+
+Corollary interp_lin_scal k xs ys q : length ys = length xs -> (2 <= length xs)%nat ->
+  interp_lin NumR xs (map (fun y => y * k) ys) q = k * interp_lin NumR xs ys q.
+Proof.
+  intros Hl Hn. rewrite (map_ext _ (fun y => k * y + 0)) by (intros; ring).
+  rewrite interp_lin_affine by assumption. ring.
+Qed.
+
+(* ---- two interpolants over the same abscissae use the same segment ---- *)
+Theorem interp_lin_same_segment (f : R -> R) (Q : R -> R -> Prop) : forall xs ys q,
+  incr xs -> length ys = length xs -> (2 <= length xs)%nat -> hd 0 xs <= q <= last xs 0 ->
+  (forall x0 x1 y0 y1, x0 < x1 -> x0 <= q <= x1 -> In y0 ys -> In y1 ys ->
+     Q (seg NumR x0 x1 y0 y1 q) (seg NumR x0 x1 (f y0) (f y1) q)) ->
+  Q (interp_lin NumR xs ys q) (interp_lin NumR xs (map f ys) q).
+Proof.
+  induction xs as [|x0 xt IH]; intros ys q Hinc Hlen Hn Hq HQ; [simpl in Hn; lia|].
+  destruct xt as [|x1 xt']; [simpl in Hn; lia|].
+  destruct ys as [|y0 [|y1 yt]]; try (simpl in Hlen; lia).
+  destruct Hinc as [H01 Hinc'].
+  destruct xt' as [|x2 xt''].
+  - destruct yt; [|simpl in Hlen; lia]. cbn [map]. rewrite !interp_lin_two. simpl in Hq.
+    apply HQ; auto; simpl; auto.
+  - cbn [map]. rewrite !interp_lin_cons. destruct (Rle_dec q x1) as [Hle|Hgt].
+    + apply HQ; auto; simpl in Hq |- *; auto. lra.
+    + change (f y1 :: map f yt) with (map f (y1 :: yt)).
+      apply IH; [exact Hinc' | simpl in *; lia | simpl; lia | |].
+      * change (last (x0 :: x1 :: x2 :: xt'') 0) with (last (x1 :: x2 :: xt'') 0) in Hq.
+        simpl hd. apply Rnot_le_lt in Hgt. lra.
+      * intros a0 a1 b0 b1 Ha Hqa Hb0 Hb1. apply HQ; auto; right; assumption.
+Qed.
+
+(* harmonic/arithmetic mean inequality on one segment: L(1/y) * L(y) >= 1 *)
+Lemma seg_am_hm x0 x1 a b q : x0 < x1 -> x0 <= q <= x1 -> 0 < a -> 0 < b ->
+  1 <= seg NumR x0 x1 (/ a) (/ b) q * seg NumR x0 x1 a b q <= (a + b) ^ 2 / (4 * a * b).
+Proof.
+  intros Hx Hq Ha Hb. rewrite !seg_R.
+  set (t := (q - x0) / (x1 - x0)).
+  assert (Ht : 0 <= t <= 1).
+  { unfold t. split.
+    - apply Rmult_le_pos; [lra|]. left. apply Rinv_0_lt_compat. lra.
+    - apply Rmult_le_reg_r with (x1 - x0); [lra|]. unfold Rdiv. rewrite Rmult_assoc, Rinv_l by lra. lra. }
+  replace ((/ b - / a) / (x1 - x0) * (q - x0) + / a) with ((1 - t) / a + t / b) by (unfold t; field; lra).
+  replace ((b - a) / (x1 - x0) * (q - x0) + a) with ((1 - t) * a + t * b) by (unfold t; field; lra).
+  assert (E : ((1 - t) / a + t / b) * ((1 - t) * a + t * b) = 1 + t * (1 - t) * ((a - b) ^ 2 / (a * b))) by (field; lra).
+  rewrite E.
+  assert (Hab : 0 < a * b) by now apply Rmult_lt_0_compat.
+  assert (Hsq : 0 <= (a - b) ^ 2 / (a * b)).
+  { apply Rmult_le_pos; [apply pow2_ge_0|]. left. now apply Rinv_0_lt_compat. }
+  clearbody t.
+  assert (Hsq2 : 0 <= (t - 1 / 2) ^ 2) by apply pow2_ge_0.
+  assert (Htt : 0 <= t * (1 - t) <= 1 / 4) by (split; nra).
+  split; [nra|].
+  replace ((a + b) ^ 2 / (4 * a * b)) with (1 + 1 / 4 * ((a - b) ^ 2 / (a * b))) by (field; lra).
+  nra.
+Qed.
+
+(* ---- minimum / maximum of a list as computed by the model ---- *)
+Lemma lmin_le_acc (l : list R) : forall d, lmin NumR d l <= d.
+Proof.
+  induction l as [|x t IH]; intros d; simpl; [lra|].
+  eapply Rle_trans; [apply IH|]. rewrite nmin_R. apply Rmin_l.
+Qed.
+Lemma lmin_le_elem (l : list R) : forall d x, In x l -> lmin NumR d l <= x.
+Proof.
+  induction l as [|y t IH]; intros d x Hin; [contradiction|]. simpl. destruct Hin as [->|Hin].
+  - eapply Rle_trans; [apply lmin_le_acc|]. rewrite nmin_R. apply Rmin_r.
+  - now apply IH.
+Qed.
+Lemma lmin_in (l : list R) : forall d, lmin NumR d l = d \/ In (lmin NumR d l) l.
+Proof.
+  induction l as [|y t IH]; intros d; simpl; [left; reflexivity|].
+  destruct (IH (nmin NumR d y)) as [E|Hin]; [|right; right; exact Hin].
+  rewrite E, nmin_R. unfold Rmin. destruct (Rle_dec d y); [left; reflexivity|right; left; reflexivity].
+Qed.
+Lemma lmax_ge_acc (l : list R) : forall d, d <= lmax NumR d l.
+Proof.
+  induction l as [|x t IH]; intros d; simpl; [lra|].
+  eapply Rle_trans; [|apply IH]. rewrite nmax_R. apply Rmax_l.
+Qed.
+Lemma lmax_ge_elem (l : list R) : forall d x, In x l -> x <= lmax NumR d l.
+Proof.
+  induction l as [|y t IH]; intros d x Hin; [contradiction|]. simpl. destruct Hin as [->|Hin].
+  - eapply Rle_trans; [|apply lmax_ge_acc]. rewrite nmax_R. apply Rmax_r.
+  - now apply IH.
+Qed.
+Lemma lmax_in (l : list R) : forall d, lmax NumR d l = d \/ In (lmax NumR d l) l.
+Proof.
+  induction l as [|y t IH]; intros d; simpl; [left; reflexivity|].
+  destruct (IH (nmax NumR d y)) as [E|Hin]; [|right; right; exact Hin].
+  rewrite E, nmax_R. unfold Rmax. destruct (Rle_dec d y); [right; left; reflexivity|left; reflexivity].
 Qed.
